@@ -3,6 +3,9 @@ CONSTANTS
   Codec = "bijective"
   Place = "byref"
   Window = 3
+  WindowRows = 3
+  MergeMode = "all"
+  Ordered = FALSE
   Offsets <- OffSmall
   Rects <- WindowRects
   MaxCells = 3
